@@ -35,7 +35,7 @@ def floors(tier):
     for w in WAVEFORMS:
         f["classes"]["C18:wave:" + w] = 200
     for c in ("step-non-integer-samples", "step-integer-samples", "step-too-small", "target-at-0", "target-at-duration", "target-off-grid",
-              "no-crossing-error", "returned-on-grid", "splice:aligned", "splice:not-aligned", "splice:with-replaced-region"):
+              "no-crossing-error", "returned-on-grid", "requery-after-in-place-edit", "splice:aligned", "splice:not-aligned", "splice:with-replaced-region"):
         f["classes"]["C18:" + c] = 50
     return f
 
@@ -379,6 +379,22 @@ def _workload(tier, rng, shard, nshards):
         for _ in range(4):
             guarded(wav.findNearestZeroCrossing, rng.uniform(0, n / rate), rng.choice(steps))
         guarded(wav.findNearestZeroCrossing, rng.randrange(0, n + 1) / rate, rng.choice([1 / rate, 1.5 / rate, 0.5 / rate]))
+        # histories on ONE object: query, edit the recording in place without changing its length, ask the same question again
+        for _h in range(3):
+            t = rng.randrange(0, n + 1) / rate
+            st = rng.choice(steps)
+            r1 = guarded(wav.findNearestZeroCrossing, t, st)
+            i0 = rng.randrange(0, n)
+            i1 = min(n, i0 + rng.randrange(1, 12))
+            if r1 is not None and rng.random() < 0.6:
+                k = min(n - 1, max(0, round(r1 * rate)))
+                i0, i1 = max(0, k - 2), min(n, k + 3)
+            lim = 2 ** (8 * wav.sampleWidth - 1) - 1
+            new = [rng.randrange(1, lim + 1) for _ in range(i1 - i0)]
+            with core.paused():
+                wav.replaceSegment(i0 / rate, i1 / rate, W.encode(new, wav.sampleWidth))
+            REC.cls("C18:requery-after-in-place-edit")
+            guarded(wav.findNearestZeroCrossing, t, st)
     nt = (400 if tier == "quick" else 12000) // nshards
     for k in range(nt):
         rate = rng.choice((1000, 8000, 16000))
